@@ -246,9 +246,9 @@ def gen_level_winners_profile(rng, names):
     A, B, X, Y = rng.sample(names, 4)
     rest = [c for c in names if c not in (A, B, X, Y)]
     w = rng.randint(6, 12)
-    tot = rng.randint(2, max(2, 2 * w - 5))
-    x = rng.randint(1, tot - 1)
-    y = tot - x
+    # X and Y stay below the quota (x, y <= (w-1)/2 < q), so what each of them inherits decides the last seat in a later round
+    x = rng.randint(1, max(1, (w - 1) // 2))
+    y = rng.randint(1, max(1, (w - 1) // 2))
     bs = [([A, B, X] + rng.sample(rest, rng.randint(0, len(rest))), w), ([B, A, Y] + rng.sample(rest, rng.randint(0, len(rest))), w),
           ([X] + rng.sample([Y] + rest, rng.randint(0, 1)), x), ([Y] + rng.sample([X] + rest, rng.randint(0, 1)), y)]
     if rng.random() < 0.4:
@@ -299,7 +299,7 @@ def gen_orbit_profile(rng, names):
     return {"candidates": cands, "ballots": [{"r": r, "w": fs(Fraction(wt))} for r, wt in bs]}
 
 
-def gen_rule_case(rng, rules=ALL_RULES, *, max_c=6, tiebreaks=TIEBREAKS, tie_bias=0.0, pairwise_ties=False, subulp=0.02, orbit=0.025):
+def gen_rule_case(rng, rules=ALL_RULES, *, max_c=6, tiebreaks=TIEBREAKS, tie_bias=0.0, pairwise_ties=False, subulp=0.02, orbit=0.025, level=0.03):
     """-> case dict {rule, kw, profile, shape}.  Only configurations the rule documents."""
     rule = rng.choice(list(rules))
     cfg = {}
@@ -374,7 +374,7 @@ def gen_rule_case(rng, rules=ALL_RULES, *, max_c=6, tiebreaks=TIEBREAKS, tie_bia
             cfg["m"] = 1
         cfg["quota"] = "droop"
         shape = dict(shape, law="partial-elim-tie", wfam="small", nb=len(jp["ballots"]), ghosts=0, zero_w=0, eps=False)
-    elif rule in ("STV", "SequentialRCV") and n >= 4 and transfer != "random" and rng.random() < 0.03:
+    elif rule in ("STV", "SequentialRCV") and n >= 4 and transfer != "random" and rng.random() < level:
         jp = gen_level_winners_profile(rng, jp["candidates"])
         cfg["m"] = 3
         cfg["quota"] = "droop"
